@@ -8,6 +8,7 @@ every block an ancestor links (`read_at_commit_replays_every_ancestor_once`): ex
 -/
 import DefraModel.Proofs.CrdtVersioned
 import DefraModel.Proofs.CrdtVersionedComplete
+import DefraModel.Proofs.CrdtVersionedSound
 namespace Defra.Props.C03
 open Defra Defra.Crdt
 
@@ -24,6 +25,25 @@ theorem read_at_commit_replays_every_ancestor_once (bs : Blocks) (c : Nat) :
       versionedVals bs c = (ids.filterMap bs.get?).foldl applyDelta {} ∧
       (∀ (n x : Nat) (b : Block), Path bs c x n → bs.get? x = some b → x ∈ ids ∧ ∀ l ∈ b.links, l ∈ ids) :=
   versionedVals_exact bs c
+
+/-- … and nothing else: everything the read replays is an ancestor-or-self of `c` or reachable from one through links -/
+theorem read_at_commit_replays_nothing_else (bs : Blocks) (c : Nat) :
+    ∃ (ids : List Nat), ids.Nodup ∧
+      versionedVals bs c = (ids.filterMap bs.get?).foldl applyDelta {} ∧
+      (∀ (n x : Nat) (b : Block), Path bs c x n → bs.get? x = some b → x ∈ ids ∧ ∀ l ∈ b.links, l ∈ ids) ∧
+      (∀ x ∈ ids, ∃ q qb, bs.get? q = some qb ∧ Anc bs c q ∧ LReach bs q x) :=
+  versionedVals_exact_sound bs c
+
+/-- **A document queried at a commit shows exactly the state of that commit.** For every store passing `wfCheck3`
+    (evaluated by `drv crdt` on the stores of the run) and every stored commit `c`: the values the versioned read
+    computes are the values of a replica that started empty and was delivered `c` — which, by C02, has merged `c`, its
+    ancestors and what they link, each once, and nothing else; and by C01 any replica that has merged exactly these
+    commits shows the same. -/
+theorem read_at_commit_is_the_state_of_that_commit (cx : Ctx) (hwf : wfCheck3 cx.blocks = true)
+    (hknown : ∀ l, (cx.blocks.get? l).isSome = true → cx.known l = true)
+    (c : Block) (hc : cx.blocks.get? c.id = some c) (hck : c.kind = .comp) :
+    versionedVals cx.blocks c.id = ((mergeDoc cx {} c).doc c.doc).vals :=
+  versioned_eq_delivered cx (wfCheck3_sound cx.blocks hwf) hknown c hc hck
 
 /-- hence a counter read at a commit is the sum of the replayed increments, one term per block -/
 theorem counter_at_commit (bs : Blocks) (c : Nat) (f : String) :
